@@ -87,6 +87,11 @@ def _compile(variant, fam, outdir):
 
 def ensure(variant="plain", quiet=True):
     """Return the overlay root (directory to put on sys.path)."""
+    pinned = os.environ.get("VERIF_OVERLAY_" + variant.upper())
+    if pinned and os.path.exists(os.path.join(pinned, ".ok")):
+        # a worker uses the overlay its parent built, even if the working
+        # tree is being edited while the check runs
+        return pinned
     h = source_hash()
     root = os.path.join(BUILD_ROOT, "%s-%s" % (variant, h))
     pkg = os.path.join(root, "BTrees")
@@ -95,9 +100,18 @@ def ensure(variant="plain", quiet=True):
         return root
     os.makedirs(BUILD_ROOT, exist_ok=True)
     # drop older builds of this variant
+    import time
     for d in os.listdir(BUILD_ROOT):
         if d.startswith(variant + "-") and d != os.path.basename(root):
-            shutil.rmtree(os.path.join(BUILD_ROOT, d), ignore_errors=True)
+            full = os.path.join(BUILD_ROOT, d)
+            try:
+                age = time.time() - os.path.getmtime(full)
+            except OSError:
+                continue
+            # (a fresh .tmp directory belongs to a build in progress; a
+            # finished overlay may be in use by a check that is running)
+            if age > (900 if ".tmp" in d else 7200):
+                shutil.rmtree(full, ignore_errors=True)
     tmp = root + ".tmp%d" % os.getpid()
     shutil.rmtree(tmp, ignore_errors=True)
     tpkg = os.path.join(tmp, "BTrees")
